@@ -2789,7 +2789,7 @@ namespace awkward {
               return;
             }
             num_items = stack_pop();
-            if (num_items < 0) {
+            if (num_items < 0  ||  num_items > (INT64_MAX >> 4)) {
               current_error_ = util::ForthError::read_beyond;
               return;
             }
